@@ -155,18 +155,20 @@ func runC08(c *core.Ctx, r *core.Result) {
 			r.Capped("deadline before era " + era.Name)
 			return
 		}
-		var w *World
-		world := func() *World {
-			if w == nil {
-				w = MustWorld(era, c08Prefix)
+		// the funded prefix of benign blocks must sync: if it does not, that is this property's violation, not a harness error
+		w, werr := NewWorld(era, c08Prefix)
+		if werr != nil {
+			we, ok := werr.(*WorldError)
+			if !ok {
+				panic("harness: " + werr.Error())
 			}
-			return w
+			r.Eval()
+			r.Violate(core.Violation{Key: era.Name + "/funding-prefix", Signature: c08Sig(era, "benign-prefix", []string{"funding"}, we.Out),
+				Desc: "a chain of ordinary blocks (mining, burns, conversions, transfers) cannot be synced: " + we.Out.String()})
+			continue
 		}
-		defer func() {
-			if w != nil {
-				w.Close()
-			}
-		}()
+		world := func() *World { return w }
+		defer w.Close()
 
 		// ---------- family 1: packed inert entries, per chain and content family
 		type pack struct {
